@@ -61,7 +61,7 @@ ASSUMPTIONS = [
     "shift times the first-order sensitivity sum_i |sigma_i d(ln det V)/dp_i| from the reference (zero for parameter-independent V)",
     "unit-carrying parameters per family (model output is homogeneous of degree 1 in them; verified numerically at start-up): poly: all; trig: a, b, c; expbasis: a, b; "
     "exponential / powerlaw: A; gausspeak / lorentz / sinusoid: A, c; logistic: L",
-    "scipy asymmetric errors (generic profile root finding, ~2 s each) are sampled at 4 % (quick) / 30 % (thorough) of the scipy cases; MINOS always",
+    "scipy asymmetric errors (generic profile root finding, ~1 s per parameter and fit) are sampled at 6 % (quick) / 40 % (thorough) of the scipy cases with <= 3 free parameters; MINOS always",
 ]
 ANCHORS = [
     ("kafe2.core.minimizers.minimizer_base", "MinimizerBase._remove_zeroes_for_fixed"),
@@ -305,7 +305,7 @@ def gen_problem(rng, tier, kind, minimizer, subset, want):
     tvals = [truth[n] for n in names]
     problem = {"kind": kind, "minimizer": minimizer, "members": members, "constraints": [], "fixed": {}, "limits": {}, "start": {}, "step": None}
     # which subsets
-    has = {s: (s == subset) or (rng.random() < 0.25) for s in SUBSETS}
+    has = {s: (s == subset) or (rng.random() < 0.4) for s in SUBSETS}
     if len(names) < 2:
         has["fixed"] = False
     if has["constrained"]:
@@ -460,7 +460,8 @@ def gen_case(rng, tier, idx, shard, nshards):
                 if gi < 3 * nstr and v == 0:
                     s = [3.7e-4, 250.0, 8.1e3, 2.2e-2][gi % 4] * float(rng.uniform(0.8, 1.25))
                 variants.append({"s": _r(s, 5)})
-        asym = bool(minimizer == "iminuit" or rng.random() < (0.04 if tier == "quick" else 0.3))
+        nfree = len(names) - len(problem["fixed"])
+        asym = bool(minimizer == "iminuit" or (nfree <= 3 and rng.random() < (0.06 if tier == "quick" else 0.4)))
         return {"property": "C15", "transform": tkind, "base": problem, "meta": meta, "variants": variants, "asym": asym, "gen_discards": discards}
     return {"property": "C15", "transform": None, "gen_discards": discards}
 
@@ -735,8 +736,8 @@ def classify_errors(info, got_errors, got_cov, exp_cov, etol):
 def classify_optimum(info, tres, bres, to_t, to_b, shift, ctol):
     """Failing parameter_values / goodness_of_fit / cost_function_value / chi2_probability.
     KEY_SCIPY_MIN: transformation = scaling AND backend = scipy AND one of the two fits stopped short of the minimum of its
-    *own* cost function: the cost of the transformed fit at the (scaled) base optimum is lower than at its reported optimum
-    by more than the cost tolerance, or vice versa."""
+    *own* cost function: the cost of the transformed fit at the (scaled) base optimum is measurably lower (> 1e-5, three orders
+    above the pre-fit agreement of the two cost functions) than at its reported optimum, or vice versa."""
     if info["kind"] != "scaling" or info["minimizer"] != "scipy":
         return None
     try:
@@ -746,9 +747,10 @@ def classify_optimum(info, tres, bres, to_t, to_b, shift, ctol):
         ft(*tres["values"])
         cb_at_tr = float(fb(*to_b(tres["values"])))
         fb(*bres["values"])
-        if np.isfinite(ct_at_exp) and ct_at_exp < tres["cost"] - ctol:
+        eps = 1e-5 + 1e-8 * (abs(tres["cost"]) + abs(bres["cost"]))  # 10^3 x the agreement of the two cost functions before fitting
+        if np.isfinite(ct_at_exp) and ct_at_exp < tres["cost"] - eps:
             return KEY_SCIPY_MIN
-        if np.isfinite(cb_at_tr) and cb_at_tr < bres["cost"] - ctol:
+        if np.isfinite(cb_at_tr) and cb_at_tr < bres["cost"] - eps:
             return KEY_SCIPY_MIN
     except Exception:
         return None
